@@ -137,6 +137,65 @@ VH_OP(roundtrip)
     }
 }
 
+// multi-index -> flat offset where every extent, stride and index fits the containers' (narrow) element type but the flat offset
+// does not: compute_offset returns nm_size_t, each term must be formed in that type.
+// offset_wide <kind 0=list 1=array 3=static_vector> <etype 0=int 3=uint32> strides nidx idx...
+template <typename T>
+static void offset_wide_kind(int kind, vh::Out& out, const std::vector<long long>& strides, const std::vector<std::vector<long long>>& idxs)
+{
+    auto emit = [&](const auto& st, const auto& ix_) {
+        const auto off = ix::compute_offset(ix_, st);
+        out.tok("W");
+        out.num((unsigned long long)off);
+    };
+    if (kind == 0) {
+        const auto st = vh::to_list<T>(strides);
+        for (auto& i_ : idxs) emit(st, vh::to_list<T>(i_));
+    } else if (kind == 3) {
+        nmtools_static_vector<T, 8> st;
+        st.resize(strides.size());
+        for (size_t i = 0; i < strides.size(); i++) st[i] = (T)strides[i];
+        for (auto& i_ : idxs) {
+            nmtools_static_vector<T, 8> m;
+            m.resize(i_.size());
+            for (size_t i = 0; i < i_.size(); i++) m[i] = (T)i_[i];
+            emit(st, m);
+        }
+    } else {
+        auto fixed = [&](auto n_) {
+            constexpr size_t N = decltype(n_)::value;
+            nmtools_array<T, N> st{};
+            for (size_t i = 0; i < N; i++) st[i] = (T)strides[i];
+            for (auto& i_ : idxs) {
+                nmtools_array<T, N> m{};
+                for (size_t i = 0; i < N; i++) m[i] = (T)i_[i];
+                emit(st, m);
+            }
+        };
+        switch (strides.size()) {
+        case 2: fixed(std::integral_constant<size_t, 2>{}); break;
+        case 3: fixed(std::integral_constant<size_t, 3>{}); break;
+        case 4: fixed(std::integral_constant<size_t, 4>{}); break;
+        default: out.tok("ERR dim"); break;
+        }
+    }
+}
+
+VH_OP(offset_wide)
+{
+    auto kind = (int)in.i();
+    auto et = (int)in.i();
+    auto strides = in.vec();
+    auto nidx = in.i();
+    std::vector<std::vector<long long>> idxs;
+    for (long long k = 0; k < nidx; k++) idxs.push_back(in.vec());
+    switch (et) {
+    case 0: offset_wide_kind<int>(kind, out, strides, idxs); break;
+    case 3: offset_wide_kind<uint32_t>(kind, out, strides, idxs); break;
+    default: out.tok("ERR etype");
+    }
+}
+
 template <typename shape_t>
 static void do_ndindex(vh::Out& out, const shape_t& shape)
 {
